@@ -1887,8 +1887,10 @@ void NiTriShapeData::Sync(NiStreamReversible& stream) {
 	}
 
 	// Not supported yet, so clear it again after reading
-	matchGroups.clear();
-	numMatchGroups = 0;
+	if (stream.GetMode() == NiStreamReversible::Mode::Reading) {
+		matchGroups.clear();
+		numMatchGroups = 0;
+	}
 }
 
 void NiTriShapeData::Create(NiVersion& version,
